@@ -1189,7 +1189,14 @@ impl DcpsDomainParticipant {
                                     data_writer
                                         .status_condition
                                         .add_communication_state(StatusKind::PublicationMatched);
-                                } else {
+                                } else if !data_writer
+                                    .incompatible_subscriptions
+                                    .incompatible_subscription_list
+                                    .contains(&InstanceHandle::new(
+                                        discovered_reader_data.dds_subscription_data.key().value,
+                                    ))
+                                {
+                                    // Only a newly found incompatible reader changes the status and is notified
                                     data_writer
                                         .incompatible_subscriptions
                                         .add_incompatible_subscription(
@@ -1735,7 +1742,12 @@ impl DcpsDomainParticipant {
                                     data_reader
                                         .status_condition
                                         .add_communication_state(StatusKind::SubscriptionMatched);
-                                } else {
+                                } else if !data_reader.incompatible_writer_list.contains(
+                                    &InstanceHandle::new(
+                                        discovered_writer_data.dds_publication_data.key().value,
+                                    ),
+                                ) {
+                                    // Only a newly found incompatible writer changes the status and is notified
                                     data_reader.add_requested_incompatible_qos(
                                         InstanceHandle::new(
                                             discovered_writer_data.dds_publication_data.key().value,
